@@ -238,6 +238,12 @@ func c04Gen(r *rand.Rand, tier string, idx int) any {
 			at := 1 + r.Intn(len(plan))
 			plan = append(plan[:at], append([]sess.Step{{W: "\x14", Tag: "app-hint"}}, plan[at:]...)...)
 		}
+		if r.Intn(2) == 0 {
+			// a keyboard macro being recorded meanwhile: the library shows its own status line
+			// above the application's text (two hint sections)
+			at := r.Intn(len(plan))
+			plan = append(plan[:at], append([]sess.Step{{W: "\x18(", Tag: "start-kbd-macro"}}, plan[at:]...)...)
+		}
 	}
 	c.Plan = plan
 	return c
@@ -458,6 +464,14 @@ func c04Run(env *fw.Env, raw json.RawMessage) fw.Outcome {
 		}
 		lastBuf := prevBuf
 		prevBuf = sn.Line
+		// the library's own status line ("Recording macro: ...") is shown under the input from
+		// the key that starts a keyboard macro on; the API does not expose it
+		recording := false
+		for k := 0; k < sn.Step && k < len(c.Plan); k++ {
+			if c.Plan[k].Tag == "start-kbd-macro" {
+				recording = true
+			}
+		}
 		if c.Dyn != "" {
 			// the prompt shown at this wait
 			promptLines = append([]string{}, basePrompt...)
@@ -500,6 +514,10 @@ func c04Run(env *fw.Env, raw json.RawMessage) fw.Outcome {
 		}
 		if sn.Hint != "" {
 			rowsNeeded += widthOf(sn.Hint) / c.W
+		}
+		if recording {
+			rowsNeeded += 1 + (20+4*sn.Step)/c.W
+			o.Add("frames_with_the_macro_recording_status_line", 1)
 		}
 		if rowsNeeded >= c.H-1 {
 			o.Add("frames_skipped_taller_than_screen", 1)
@@ -577,7 +595,7 @@ func c04Run(env *fw.Env, raw json.RawMessage) fw.Outcome {
 		// (e) remnants of earlier, taller frames
 		if v.RowsUsed > maxRows {
 			maxRows = v.RowsUsed
-		} else if sn.Hint == "" && sn.Local == "" {
+		} else if sn.Hint == "" && sn.Local == "" && !recording {
 			for r := v.RowsUsed; r < maxRows; r++ {
 				bad := -1
 				for m := 0; m < 2 && bad < 0; m++ {
